@@ -309,3 +309,7 @@ def run(ctx):
     if n < 6:
         raise AnalysisError('fewer strategy lookups than expected in merging/generic.py')
     field_strategy_sources(ctx, 'R10.7')
+
+
+from .extra import with_extra  # noqa: E402
+run = with_extra('C10', run)
